@@ -78,4 +78,23 @@ LEVEL = {
                     'The constraints on the printed lists (complete, bounded, coarse = sum of covered finer slots) are checked on the output of every real run.',
             'design_ref': '5 C20',
             'note': _TB + 'math/rand is an oracle; the wall clock is read by the command (small steps make every alignment of the instant occur).'},
+    'C06': {'text': 'Theorems: file length = header + 12 per slot; big-endian header in the classic field order with archives contiguous; offsets of a validated header are the running sums; '
+                    'Open on the laid-out bytes returns the same header and every slot. Reader agreement: whispertool, the real go-whisper and both reader models are run on the same bytes '
+                    'written by either library (PARTIAL: the reader-agreement theorem gw_fetch = fetch is not yet proved).',
+            'design_ref': '5 C06',
+            'note': _TB + 'go-whisper is modelled by Model/GoWhisperRef.v (its Fetch for the classic format), validated against the real go-whisper on every run.'},
+    'C13': {'text': 'PARTIAL (protocol level). Theorems for every schedule: mutual exclusion is an invariant; the disk left by any interleaving is the sequential composition of the sessions in '
+                    'lock-acquisition order (hence no lost update: n add-one sessions leave n); a failed Open leaves the lock free. Runtime side exercised, not proved: flock probes after every '
+                    'failing Open variant, blocking second Open in-process and cross-process, concurrent sessions with readers.',
+            'design_ref': '5 C13',
+            'note': _TB + 'Assumed: flock(2) grants LOCK_EX to one open file description at a time and releases it on close; the Go scheduler and GC finalisers are outside the model.'},
+    'C15': {'text': 'Theorems: decoders are total functions into Ok/Want/Err with Go\'s integer wraps written out; a successful decode has allocated at most the size of its input; Open accepts a file only with a '
+                    'validated header and sufficient length, and then every archive is a ring of the announced size; fetches on any such ring never panic whatever the slots hold (unaligned / garbage base included).',
+            'design_ref': '5 C15',
+            'note': _TB + 'Allocation is modelled as the size of the decoded result; the run measures runtime.MemStats.TotalAlloc in a child process under an address-space limit.'},
+    'C17': {'text': 'PARTIAL. Theorems on the page-buffer model: a read never changes what the buffer shows nor the disk, and a read issued after another read returns what it returns alone '
+                    '(so any interleaving of atomic ReadAt steps gives each fetch its own answer). Data-race freedom (Go memory model) is not expressible in the model: it is exercised by concurrent fetches, '
+                    'sum and HTTP requests under the race detector.',
+            'design_ref': '5 C17',
+            'note': _TB + 'Assumed: filebuffer.ReadAt is atomic (it holds a mutex); net/http serves requests on independent goroutines.'},
 }
